@@ -277,6 +277,7 @@ type gen struct {
 	other    string
 	used     map[string]bool
 	noTmpl   bool // behavioural documents use no templates
+	dupName  bool // two entries of this document carry the same service name
 	svcDescs []string
 }
 
@@ -1083,6 +1084,21 @@ func genDoc(r *rand.Rand, i int, malformedPct int) *docCase {
 		top.items = append(top.items, s)
 		descs = append(descs, d)
 	}
+	// two entries carrying the SAME service name (legal: routes are told apart by `from`): every entry is
+	// an upstream of its own and needs its own allow rule (added after seeded change C14k - the
+	// "at least one allow rule" check looked at each service NAME once - was missed)
+	if n >= 2 && g.p(9) {
+		k := 1 + r.Intn(n-1)
+		if first := top.items[0].get("service"); first != nil {
+			top.items[k].set("service", sc(first.text))
+			descs = append(descs, "dup-service-name")
+			g.dupName = true
+			if g.p(70) { // ... and the repeated entry states no allow rule of its own
+				stripAllowRules(top.items[k])
+				descs = append(descs, "dup-entry-without-rules")
+			}
+		}
+	}
 	if g.p(malformedPct) {
 		dc.Malformed = malformedKinds[r.Intn(len(malformedKinds))]
 		g.malform(dc.Malformed, top)
@@ -1177,6 +1193,9 @@ func genDoc(r *rand.Rand, i int, malformedPct int) *docCase {
 		dc.Vars["unused_variable"] = "zzz"
 	}
 	dc.Env = g.envSpec()
+	if g.dupName && g.p(70) { // no deployment-wide default rule either
+		dc.Env.Groups, dc.Env.Domains, dc.Env.Addresses = nil, nil, nil
+	}
 	ed := ""
 	if dc.Env.Nil {
 		ed = "nil"
@@ -1197,4 +1216,20 @@ func genDoc(r *rand.Rand, i int, malformedPct int) *docCase {
 	}
 	dc.Shape = "cl(" + cls + twinMark + ") " + strings.Join(descs, " | ") + " tmpl(" + strings.Join(tdesc, ",") + ") env(" + ed + ") mal(" + dc.Malformed + ")"
 	return dc
+}
+
+// stripAllowRules removes every allow-rule key below n.
+func stripAllowRules(n *node) {
+	if n == nil {
+		return
+	}
+	for _, k := range []string{"allowed_groups", "allowed_email_domains", "allowed_email_addresses"} {
+		n.del(k)
+	}
+	for _, v := range n.vals {
+		stripAllowRules(v)
+	}
+	for _, v := range n.items {
+		stripAllowRules(v)
+	}
 }
